@@ -5,7 +5,7 @@ import itertools
 from symx import core, stubs
 from symx.core import is_sym, ssum
 from symx.stubs import facade
-from harness.common import PShape, pomdp_shapes, build_pomdp, simplex
+from harness.common import PShape, pomdp_shapes, generated_pshapes, build_pomdp, simplex
 
 PROPERTY = 'C09'
 FUNCTIONS = [
@@ -36,6 +36,8 @@ def pshapes():
 
 
 PSH = pshapes()
+NCUR = len(PSH)
+PSH = PSH + generated_pshapes(40)      # thorough tier only
 
 
 def bounds(tier):
@@ -46,6 +48,8 @@ def bounds(tier):
 def controllers(nA, nO, n):
     """(action strategy [n][nA], observation strategy [n][nA][nO][n]) menus"""
     arow = [[F(1)] + [F(0)] * (nA - 1), [F(0)] * (nA - 1) + [F(1)], [F(1, nA)] * nA, ([Q1, Q3] + [F(0)] * (nA - 2))[:nA]]
+    if nA == 1:
+        arow = [[F(1)]] * 4
     if n == 1:
         for a in arow:
             yield [a], [[[[F(1)] for _ in range(nO)] for _ in range(nA)]]
@@ -282,7 +286,17 @@ def bpi_reported_value(sx, shape, n):
 
 def jobs(tier):
     o = dict(timeout_ms=15000, budget_s=(120 if tier == 'quick' else 900), max_paths=5000)
-    for i, sh in enumerate(PSH):
+    if tier != 'quick':
+        for i in range(NCUR, len(PSH)):
+            sh = PSH[i]
+            nA, nO = sh.A, len(sh.olabels)
+            ncs = len(list(controllers(nA, nO, 2)))
+            for k in range(min(ncs, 3)):
+                yield ('evaluator', dict(shape=i, n=2, csel=k), o)
+            yield ('execution', dict(shape=i, csel=i % 4, length=2), o)
+            if len([p for p in sh.s0.values() if p > 0]) >= 2:
+                yield ('bpi_reported_value', dict(shape=i, n=2), o)
+    for i, sh in enumerate(PSH[:NCUR]):
         nA, nO = sh.A, len(sh.olabels)
         for n in (1, 2):
             for k in range(len(list(controllers(nA, nO, n)))):
